@@ -14,14 +14,39 @@ import (
 // Vi <- Li u, with arbitrary non-left-recursive operand expressions (labels, actions,
 // predicates, optionally state blocks). Recursive alternatives come first (with the bases
 // first the seed could never grow: that is PEG ordered choice, not a defect).
-func LRGrammarGen(stateful bool) *rapid.Generator[*Grammar] {
+func LRGrammarGen(stateful bool) *rapid.Generator[*Grammar] { return lrGrammarGen(stateful, false) }
+
+// LRThrowGrammarGen draws left-recursive grammars with throw / recover: operands that throw
+// ( t / %{F} ), recovery operators in the helper rules, and entry rules that reach a
+// left-recursive level under recovery operators - also the same level at the same offset
+// under two different operators ( ( L //{F1} r1 ) t1 / ( L //{F1} r2 ) t2 ).
+func LRThrowGrammarGen() *rapid.Generator[*Grammar] { return lrGrammarGen(false, true) }
+
+func lrGrammarGen(stateful, throw bool) *rapid.Generator[*Grammar] {
 	return rapid.Custom(func(t *rapid.T) *Grammar {
 		cfg := Profile("codeblocks")
 		cfg.Profile = "leftrec"
 		cfg.StateBlocks = stateful
 		cfg.Display = true
 		cfg.MaxDepth = 3
+		cfg.Throw = throw
 		c := &gen{t: t, cfg: &cfg, g: &Grammar{Profile: "leftrec"}, nullable: map[string]bool{}}
+		var recRules []*Rule
+		if throw {
+			// dedicated recovery rules (terminal expressions with an optional action)
+			for i := 0; i < 2; i++ {
+				name := fmt.Sprintf("Rec%d", i+1)
+				c.noCode, c.noThrow = true, true
+				e, n := c.recExpr()
+				c.noCode, c.noThrow = false, false
+				if c.chance(60, "recaction") {
+					e = &Expr{K: KAction, ID: c.id(), Sub: []*Expr{e}}
+				}
+				recRules = append(recRules, &Rule{Name: name, Expr: e})
+				c.nullable[name] = n
+				c.recRules = append(c.recRules, name)
+			}
+		}
 		levels := c.intn(1, 3, "lrlevels")
 		nH := c.intn(1, 3, "lrhelpers")
 		var lnames, hnames []string
@@ -54,7 +79,19 @@ func LRGrammarGen(stateful bool) *rapid.Generator[*Grammar] {
 			c.ruleIdx = li
 			c.labelN = 0
 			name := lnames[li]
-			next := func() *Expr {
+			var next func() *Expr
+			next0 := func() *Expr { return next() }
+			if throw {
+				// a quarter of the operands may throw instead: ( operand / %{F} )
+				next0 = func() *Expr {
+					op := next()
+					if c.chance(25, "throwoperand") {
+						return &Expr{K: KChoice, Sub: []*Expr{op, {K: KThrow, Name: Pick(t, []string{"F1", "F2"}, "operandlabel")}}}
+					}
+					return op
+				}
+			}
+			next = func() *Expr {
 				// operand: the next level, a helper, or a parenthesised top level
 				k := c.intn(0, 9, "operand")
 				switch {
@@ -98,7 +135,7 @@ func LRGrammarGen(stateful bool) *rapid.Generator[*Grammar] {
 				}
 				nOp := c.intn(0, 2, "noperands")
 				for j := 0; j < nOp; j++ {
-					op := next()
+					op := next0()
 					if c.chance(60, "oplabel") {
 						op = &Expr{K: KLabel, Name: c.label(), Sub: []*Expr{op}}
 					}
@@ -119,7 +156,7 @@ func LRGrammarGen(stateful bool) *rapid.Generator[*Grammar] {
 				if c.cfg.StateBlocks && c.chance(30, "basestate") {
 					b = &Expr{K: KSeq, Sub: []*Expr{c.stateBlock(), next()}}
 				} else {
-					b = next()
+					b = next0()
 				}
 				if i == nB-1 && c.chance(12, "nullablebase") {
 					// the last base may match the empty string: A <- A t / b? (the first, empty seed
@@ -173,7 +210,42 @@ func LRGrammarGen(stateful bool) *rapid.Generator[*Grammar] {
 			g.Rules = append(g.Rules, rules[n])
 		}
 		g.Rules = append(g.Rules, extra...)
+		g.Rules = append(g.Rules, recRules...)
 		g.Entries = append([]string{}, lnames...)
+		if throw {
+			// X1 = ( Li //{F..} r ) t?        X2 = ( Li //{F1} r1 ) t1 / ( Li //{F1,F2} r2 ) t2?
+			rec := func() *Expr {
+				if c.chance(50, "entryrecrule") {
+					return &Expr{K: KRef, Name: Pick(t, c.recRules, "entryrecname")}
+				}
+				c.noCode, c.noThrow = true, true
+				e, _ := c.recExpr()
+				c.noCode, c.noThrow = false, false
+				return e
+			}
+			guarded := func(labels ...string) *Expr {
+				return &Expr{K: KRecover, Labels: labels, Sub: []*Expr{{K: KRef, Name: Pick(t, lnames, "guardedlevel")}, rec()}}
+			}
+			x1 := &Expr{K: KSeq, Sub: []*Expr{guarded("F1", "F2"), {K: KOpt, Sub: []*Expr{c.consuming()}}}}
+			lv := Pick(t, lnames, "twicelevel")
+			a := &Expr{K: KRecover, Labels: []string{"F1"}, Sub: []*Expr{{K: KRef, Name: lv}, rec()}}
+			b := &Expr{K: KRecover, Labels: []string{"F1", "F2"}, Sub: []*Expr{{K: KRef, Name: lv}, rec()}}
+			x2 := &Expr{K: KChoice, Sub: []*Expr{{K: KSeq, Sub: []*Expr{a, c.consuming()}}, {K: KSeq, Sub: []*Expr{b, {K: KOpt, Sub: []*Expr{c.consuming()}}}}}}
+			g.Rules = append(g.Rules, &Rule{Name: "X1", Expr: x1}, &Rule{Name: "X2", Expr: x2})
+			lnames = append(lnames, "X1", "X2")
+			g.Entries = append(g.Entries, "X1", "X2")
+		}
+		if c.chance(30, "lookaheadentry") {
+			// P1 = !( Li t ) ( Li / t ) : the same level at the same offset inside and outside a
+			// negative lookahead
+			lv := Pick(t, lnames[:levels], "lookaheadlevel")
+			p1 := &Expr{K: KSeq, Sub: []*Expr{
+				{K: KNot, Sub: []*Expr{{K: KSeq, Sub: []*Expr{{K: KRef, Name: lv}, c.consuming()}}}},
+				{K: KChoice, Sub: []*Expr{{K: KRef, Name: lv}, c.consuming()}}}}
+			g.Rules = append(g.Rules, &Rule{Name: "P1", Expr: p1})
+			lnames = append(lnames, "P1")
+			g.Entries = append(g.Entries, "P1")
+		}
 		for i, n := range lnames {
 			w := &Rule{Name: fmt.Sprintf("W%d", i+1), Expr: &Expr{K: KAction, ID: c.id(),
 				Sub: []*Expr{{K: KLabel, Name: "v", Sub: []*Expr{{K: KRef, Name: n}}}}}}
